@@ -22,6 +22,9 @@ TRUSTED_BASE = [
 ]
 
 
+ESCALATION = 6
+
+
 class Abort(Exception):
     pass
 
@@ -316,7 +319,8 @@ class Run:
         # drift alarm, never a verdict: sources that differ from the reference tree make a quick check search at the thorough budget
         self.changed_sources = changed_sources()
         self.escalated = tier == "quick" and bool(self.changed_sources) and os.environ.get("VERIF_NO_ESCALATE") != "1"
-        self.quick = tier == "quick" and not self.escalated
+        self.quick = tier == "quick"
+
         self.t0 = time.time()
         self.tie_breaks = []        # list of (kind, name, detail)
         self.violations = []        # list of dict (concrete failing inputs)
@@ -336,6 +340,13 @@ class Run:
         self.checker_cmd = f"cd /verif/lean && lake build A5.Props.{prop_id} && lake env lean .audit/Audit{prop_id}.lean  (# print axioms)"
         self.log = []
 
+    def n(self, quick_n, thorough_n):
+        """sample size: the quick size, the thorough size, or - quick tier on a tree whose sources differ from the reference tree -
+        ESCALATION times the quick size (capped by the thorough size)"""
+        if self.tier != "quick":
+            return thorough_n
+        return min(thorough_n, ESCALATION * quick_n) if self.escalated else quick_n
+
     def note(self, msg):
         self.log.append(msg)
         print(f"[{self.id}] {msg}", flush=True)
@@ -343,7 +354,7 @@ class Run:
     # -- ties ---------------------------------------------------------------------------------
     def do_ties(self):
         if self.changed_sources:
-            self.note("sources differ from the reference tree: " + ", ".join(self.changed_sources[:6]) + (" -> searching at the thorough budget" if self.escalated else ""))
+            self.note("sources differ from the reference tree: " + ", ".join(self.changed_sources[:6]) + (f" -> sample sizes x {ESCALATION}" if self.escalated else ""))
         ok, msg = run_translator()
         self.note(msg)
         if not ok:
@@ -467,7 +478,7 @@ class Run:
             "samples": self.samples[:12] if self.samples else ["<none>"],
             "known_findings_reported": self.known,
             "sources_changed_vs_reference_tree": self.changed_sources,
-            "search_budget": "thorough (escalated: sources changed)" if self.escalated else self.tier,
+            "search_budget": f"quick x {ESCALATION} (escalated: sources differ from the reference tree)" if self.escalated else self.tier,
         }
         cov.update(self.extra)
         ev = {
